@@ -6,6 +6,7 @@ package main
 
 import (
 	"encoding/json"
+	"errors"
 	"fmt"
 	"reflect"
 	"time"
@@ -15,6 +16,7 @@ import (
 
 type TransferInput struct {
 	SrcMutex bool   `json:"src_mutex,omitempty"`
+	SrcErr   bool   `json:"src_err,omitempty"` // the source carries an error stored earlier (it must still be there afterwards)
 	SrcFifo  bool   `json:"src_fifo"`
 	Src      []int  `json:"src"`     // element codes as in hist.go
 	Form     string `json:"form"`    // native alias ptr ronly zero int nil
@@ -54,6 +56,9 @@ func runTransfer(raw json.RawMessage) (res *Result, err error) {
 	src.Push(sv...)
 	if in.SrcMutex {
 		src.SetMutex()
+	}
+	if in.SrcErr {
+		src.SetErr(errors.New("stale error on the source"))
 	}
 	var dst stk.Stack
 	if in.DstCap > 0 {
@@ -196,7 +201,7 @@ func genTransfer(ctx *Ctx, emit func(any, string)) {
 							if ctx.Quick() && fifo == 1 && form != "native" {
 								continue
 							}
-							in := TransferInput{SrcFifo: fifo == 1, SrcMutex: (sl+dl+cp)%2 == 1, Form: form, DstCap: cp, DstPol: -1}
+							in := TransferInput{SrcFifo: fifo == 1, SrcMutex: (sl+dl+cp)%2 == 1, SrcErr: (sl+2*dl+cp)%3 == 1, Form: form, DstCap: cp, DstPol: -1}
 							for i := 0; i < sl; i++ {
 								v := 10 + i
 								if withNil == 1 && i == 1 {
@@ -217,7 +222,7 @@ func genTransfer(ctx *Ctx, emit func(any, string)) {
 	n := ctx.N(300, 8000)
 	for i := 0; i < n; i++ {
 		r := ctx.Rng.Fork()
-		in := TransferInput{SrcFifo: r.Bool(), SrcMutex: r.Pct(40), Form: forms[r.Intn(4)], DstPol: -1}
+		in := TransferInput{SrcFifo: r.Bool(), SrcMutex: r.Pct(40), SrcErr: r.Pct(30), Form: forms[r.Intn(4)], DstPol: -1}
 		if r.Pct(30) {
 			in.Form = forms[r.Intn(len(forms))]
 		}
